@@ -202,7 +202,7 @@ def find_malformed_elements(root):
     """Yields messages about definitions which lack attributes the parser can't do without."""
     def check(elem, required):
         for attribute in required:
-            if elem.get(attribute) is None:
+            if not elem.get(attribute):
                 yield "element <%s%s> lacks '%s' attribute" % (
                     elem.tag, elem.get('name') and ' name="%s"' % elem.get('name') or '', attribute)
 
@@ -233,7 +233,8 @@ class IsarParser(object):
 
         try:
             root = ElementTree.fromstring(content)
-        except ElementTree.ParseError as e:
+        except (ElementTree.ParseError, ValueError, LookupError) as e:
+            # ValueError, LookupError: the xml declaration names an encoding the xml parser cannot use
             raise model.ParseError([(path, "malformed xml: %s" % e)])
         malformed = list(find_malformed_elements(root))
         if malformed:
